@@ -175,19 +175,23 @@ CHECKS = {
         technique="Lean 4 proof (totality, invariants by induction over steps, typing of outcomes) + translator + differential correspondence under sanitizers",
         design="6/C13"),
     "C14": dict(
-        text=("Lean 4 theorems over the VM heap model (values, cells with counts, allocation-order addresses): recursive vm_release over any "
-              "work list keeps count >= in-degree, never touches a dead address and frees only unreferenced objects (release_safe, well-founded "
-              "on heap size, fun_induction); vm_retain and allocation keep the invariant (retain_inv, alloc_inv in Lemmas/HeapInv); freed ids are "
-              "never reused (freed_once); instruction-level preservation is proved, for operands of any kind and also on stack underflow, for 25 opcodes "
-              "(scalar_fragment_ok: the constants, LOAD_LOCAL, LOAD_GLOBAL, STORE_LOCAL, NEG, NOT, the six comparisons, AND, OR, JMP, JMP_TRUE, JMP_FALSE, "
-              "CAST_BOOL, PRINT, PRINTLN, ASSERT, POP/GC_RELEASE, DUP - from one general lemma, consume_ok: a handler whose new stack and released values "
-              "together reference no address more often than the old stack did keeps the invariant) and for integer arithmetic (arith_int_ok); "
-              "for the remaining opcodes (strings, containers, closures, calls) the invariant is not yet a theorem and is decided per run: the real VM prints its whole "
-              "heap (ids, counts, children), stack, globals and frame closures at every instruction boundary, every boundary is audited "
-              "(count >= in-degree, no dangling reference, no double free) and compared with the model's boundary, which reproduces every "
-              "handler's retain/release. Churn family: live objects after the loop are independent of the iteration count."),
-        note=TB + " Partial: invariant preservation is a theorem for the heap primitives and 3 handler families, not yet for all 94 opcodes (those are covered by lock-step comparison against the model and by the audit of the implementation's own state); hashmaps, floats and extern calls are outside the model.",
-        technique="Lean 4 proof (well-founded recursion, counting invariants) + lock-step differential correspondence with heap audit (hook H2)",
+        text=("Lean 4 theorems, unbounded, over the VM model (values, cells with counts, allocation-order addresses, operand stack, globals, frames): "
+              "HeapOk = every live object's count >= number of references to it from the stack/locals, globals, frame closures and live objects; everything "
+              "referenced is live; the object behind a value has the value's kind; ids unique and never reused; the model's 'would touch freed memory' flag clear. "
+              "heap_ok_init; release_safe (recursive vm_release over any work list, well-founded on heap size); release_then_store (releasing a child while its "
+              "container still points at it commutes with storing the new child, because the container cannot be freed by that release - the ARR_SET / ARR_REMOVE / "
+              "STRUCT_SET / STORE_UPVALUE pattern); instr_heap_ok: EVERY data opcode of vm_core_execute (all 90: strings with interning, arrays incl. slice, structs, "
+              "unions, tuples, closures and upvalues, casts, printing, arithmetic on operands of any kind, also on stack underflow, wrong kinds, indices out of range) "
+              "keeps HeapOk; step_heap_ok: one dispatch-loop iteration incl. CALL, CALL_INDIRECT, CLOSURE_CALL (closure reference moves into the frame), RET / implicit "
+              "return (frame slots and closure released), decode errors; reachable_heap_ok: HeapOk after any number of steps from any HeapOk state, any module (verified or not); "
+              "execute_heap_ok: vm_execute (__init__ then entry point) for any module and any instruction budget; never_dangling: the outcome 'dangling' (C code would "
+              "dereference a freed object or find another kind of object) is unreachable; freed_once. Tie: the real VM prints its whole heap (ids, counts, children), stack, "
+              "globals and frame closures at every instruction boundary (hook H2); every boundary is audited (count >= in-degree, no dangling reference, no double free) and "
+              "compared with the model's boundary, which reproduces every handler's retain/release. Churn family: live objects after the loop are independent of the iteration count."),
+        note=TB + " Partial: the invariant is a theorem for every reachable state of the model; that vm.c/heap.c behave like the model is correspondence (lock step, every boundary). "
+             "The 'no unbounded growth' half (leak freedom) is decided by the churn family and the audit, not by a theorem (count >= in-degree is the safe direction only); "
+             "hashmaps, floats and extern calls are outside the model (the step answers 'unsupported').",
+        technique="Lean 4 proof (invariant by induction over all VM steps; well-founded recursion for vm_release; counting and kind invariants) + lock-step differential correspondence with heap audit (hook H2)",
         design="6/C14"),
     "C15": dict(
         text=("Lean 4 theorem, unbounded: for every transferable value (int, float bit pattern, bool, string of any bytes and any length below "
